@@ -25,6 +25,21 @@ pub struct RwLockWriteGuard<'a, T: ?Sized> {
     data: Option<std::sync::RwLockWriteGuard<'a, T>>,
 }
 
+/// The `std` lock only stores the data. Its poison flag means nothing here:
+/// all loom threads run on one OS thread, so a write guard that is dropped
+/// while *another* loom thread unwinds would count as dropped during a panic.
+fn ignore_poison<G>(result: LockResult<G>) -> G {
+    result.unwrap_or_else(|poisoned| poisoned.into_inner())
+}
+
+fn try_ignore_poison<G>(result: TryLockResult<G>) -> G {
+    match result {
+        Ok(guard) => guard,
+        Err(TryLockError::Poisoned(poisoned)) => poisoned.into_inner(),
+        Err(TryLockError::WouldBlock) => panic!("loom::RwLock state corrupt"),
+    }
+}
+
 impl<T> RwLock<T> {
     /// Creates a new rwlock in an unlocked state ready for use.
     pub fn new(data: T) -> RwLock<T> {
@@ -36,7 +51,7 @@ impl<T> RwLock<T> {
 
     /// Consumes this `RwLock`, returning the underlying data.
     pub fn into_inner(self) -> LockResult<T> {
-        Ok(self.data.into_inner().expect("loom::RwLock state corrupt"))
+        Ok(ignore_poison(self.data.into_inner()))
     }
 }
 
@@ -55,7 +70,7 @@ impl<T: ?Sized> RwLock<T> {
 
         Ok(RwLockReadGuard {
             lock: self,
-            data: Some(self.data.try_read().expect("loom::RwLock state corrupt")),
+            data: Some(try_ignore_poison(self.data.try_read())),
         })
     }
 
@@ -71,7 +86,7 @@ impl<T: ?Sized> RwLock<T> {
         if self.object.try_acquire_read_lock(location!()) {
             Ok(RwLockReadGuard {
                 lock: self,
-                data: Some(self.data.try_read().expect("loom::RwLock state corrupt")),
+                data: Some(try_ignore_poison(self.data.try_read())),
             })
         } else {
             Err(TryLockError::WouldBlock)
@@ -89,7 +104,7 @@ impl<T: ?Sized> RwLock<T> {
 
         Ok(RwLockWriteGuard {
             lock: self,
-            data: Some(self.data.try_write().expect("loom::RwLock state corrupt")),
+            data: Some(try_ignore_poison(self.data.try_write())),
         })
     }
 
@@ -105,7 +120,7 @@ impl<T: ?Sized> RwLock<T> {
         if self.object.try_acquire_write_lock(location!()) {
             Ok(RwLockWriteGuard {
                 lock: self,
-                data: Some(self.data.try_write().expect("loom::RwLock state corrupt")),
+                data: Some(try_ignore_poison(self.data.try_write())),
             })
         } else {
             Err(TryLockError::WouldBlock)
@@ -114,7 +129,7 @@ impl<T: ?Sized> RwLock<T> {
 
     /// Returns a mutable reference to the underlying data.
     pub fn get_mut(&mut self) -> LockResult<&mut T> {
-        Ok(self.data.get_mut().expect("loom::RwLock state corrupt"))
+        Ok(ignore_poison(self.data.get_mut()))
     }
 }
 
